@@ -1284,7 +1284,7 @@ impl Channel {
         }
 
         // checked above
-        let (info2, sigs) = self.enforcement_state.next_holder_commit_info.take().unwrap();
+        let info2 = self.enforcement_state.next_holder_commit_info.as_ref().unwrap().0.clone();
         let incoming_payment_summary =
             self.enforcement_state.incoming_payments_summary(Some(&info2), None);
         let outgoing_payment_summary = self.enforcement_state.payments_summary(Some(&info2), None);
@@ -1294,6 +1294,19 @@ impl Channel {
 
         let delta =
             self.enforcement_state.claimable_balances(&*state, Some(&info2), None, &self.setup);
+
+        // The payments were validated when the commitment was validated, but other channels
+        // may have changed the node's in-flight amounts since then.  Validate again before
+        // the payments are applied.
+        state.validate_payments(
+            &self.id0,
+            &incoming_payment_summary,
+            &outgoing_payment_summary,
+            &delta,
+            validator.clone(),
+        )?;
+
+        let (info2, sigs) = self.enforcement_state.next_holder_commit_info.take().unwrap();
 
         let (next_holder_commitment_point, maybe_old_secret) = self
             .advance_holder_commitment_state(
